@@ -122,6 +122,21 @@ pub fn gen(tier: &str, seed: u64, out: &mut dyn FnMut(Value)) {
         }
     }
     let mut rng = Rng::new(seed);
+    crate::props::engine_props::many_kinds(&mut rng, out);
+    // ids around the powers of two (whatever compact form a set of ids is kept in, 64 is not 0 and 256 is not 0)
+    {
+        let pts = [0i64, 1, 31, 32, 33, 63, 64, 65, 127, 128, 129, 255, 256, 257, 4294967296, 4294967360];
+        for a in pts {
+            for neg in [false, true] {
+                let lid = if neg { -a } else { a };
+                let mo = json!([["a", [lid]]]);
+                for b in pts {
+                    out(json!({"op": "admits", "mo": mo, "src": "a", "id": b, "tag": "ids around powers of two", "nt": true}));
+                    out(json!({"op": "admits", "mo": mo, "src": "a", "id": -b, "tag": "ids around powers of two", "nt": true}));
+                }
+            }
+        }
+    }
     // long id lists (any small or large collection must answer the same as membership in the set): 9..24 ids,
     // mostly negated, all negated, or mixed, against every id around the range
     let nlong = if tier == "thorough" { 4000 } else { 300 };
